@@ -890,6 +890,52 @@ func main() {
 		add("newTType", findFunc(rf, "newTType"))
 		w("  descTableSkeleton := \"%s\"\n", fmt.Sprintf("%x", h.Sum(nil))[:24])
 	}
+	// the remainder: every function and package-level declaration of the two packages that no fingerprint,
+	// table translation or protocol fact above looks at, as full normalised text — small predicates and
+	// helpers the model mirrors by hand (R4 changed isident / isident0, which nothing watched)
+	{
+		covered := map[string]bool{}
+		for _, n := range append(append(append([]string{}, dnames...), enames...), rnames...) {
+			covered[n] = true
+		}
+		for _, n := range []string{"structDesc.fromDefsFields", "structDesc.GetField", "newTType", "createStructDesc",
+			"newStructDescAndPrefetch", "prefetchSubStructDesc", "fetchStructDesc", "rollbackBuild",
+			"unknownFields.Add", "unknownFields.Reset", "unknownFields.Size", "unknownFields.Copy"} {
+			covered[n] = true
+		}
+		residual := func(files pkgFiles) string {
+			h := sha256.New()
+			for _, f := range files.sorted() {
+				for _, d := range f.Decls {
+					switch x := d.(type) {
+					case *ast.FuncDecl:
+						name := x.Name.Name
+						if x.Recv != nil && len(x.Recv.List) > 0 {
+							name = strings.TrimPrefix(src(x.Recv.List[0].Type), "*") + "." + name
+						}
+						if covered[name] || strings.HasPrefix(name, "appendMap_") || strings.HasPrefix(name, "appendList_") ||
+							strings.HasPrefix(name, "Verif") || strings.HasPrefix(name, "NewVerif") {
+							continue
+						}
+						fmt.Fprintf(h, "func %s\n%s\n--\n", name, strings.Join(strings.Fields(src(x)), " "))
+					case *ast.GenDecl:
+						if x.Tok == token.IMPORT {
+							continue
+						}
+						fmt.Fprintf(h, "decl\n%s\n--\n", strings.Join(strings.Fields(src(x)), " "))
+					}
+				}
+			}
+			return fmt.Sprintf("%x", h.Sum(nil))[:24]
+		}
+		rfNoHooks := pkgFiles{}
+		for n, f := range rf {
+			if n != "verif_hooks.go" {
+				rfNoHooks[n] = f
+			}
+		}
+		w("  residualDefsSkeleton := \"%s\"\n  residualReflectSkeleton := \"%s\"\n", residual(df), residual(rfNoHooks))
+	}
 	skeletonText = skDump.String()
 	top := findFunc(rf, "Decode")
 	w("  topLevelUsesLimit := %v\n", contains(top, `d\.Decode\(b, rv\.UnsafePointer\(\), sd, maxDepthLimit\)`))
